@@ -226,22 +226,164 @@ fn run_case(seed: u64, idx: u64) -> CaseOut {
     co
 }
 
+// ---- concurrent lane ---------------------------------------------------------------------------------
+// set_message / set_prefix / finish_with_message convert their argument (`Into<Cow<str>>`) inside the
+// call. A text type whose conversion lets a second thread run `set_tab_width` (and waits a moment for it)
+// puts the width change at every point of the call where the bar's lock is not held. Whatever the
+// order in which the two calls take effect, afterwards every text must be expanded with the width
+// that is now in force.
+
+struct SlowShared {
+    go: std::sync::Mutex<Option<std::sync::mpsc::Sender<()>>>,
+    done: std::sync::atomic::AtomicBool,
+    overlapped: std::sync::atomic::AtomicBool,
+}
+
+struct SlowText(String, std::sync::Arc<SlowShared>);
+
+impl From<SlowText> for std::borrow::Cow<'static, str> {
+    fn from(t: SlowText) -> Self {
+        use std::sync::atomic::Ordering::SeqCst;
+        if let Some(tx) = t.1.go.lock().unwrap().take() {
+            let _ = tx.send(());
+            // give the other thread the chance to complete its call inside ours (it cannot when we hold the lock)
+            let t0 = std::time::Instant::now();
+            while !t.1.done.load(SeqCst) && t0.elapsed().as_micros() < 4_000 {
+                std::thread::yield_now();
+            }
+            if t.1.done.load(SeqCst) {
+                t.1.overlapped.store(true, SeqCst);
+            }
+        }
+        std::borrow::Cow::Owned(t.0)
+    }
+}
+
+fn concurrent_case(seed: u64, idx: u64) -> CaseOut {
+    use std::sync::atomic::Ordering::SeqCst;
+    let mut rng = Rng::derive(seed, 1616, idx);
+    let replay = format!("t{seed}:{idx}");
+    let tmpl = rng.usize(TEMPLATES.len());
+    let w1 = *rng.pick(&WIDTHS);
+    let mut w2 = *rng.pick(&WIDTHS);
+    if w2 == w1 {
+        w2 = if w1 == 8 { 3 } else { 8 };
+    }
+    let msg0 = text(&mut rng, "m");
+    let pre0 = text(&mut rng, "p");
+    let mut newtext = text(&mut rng, "n");
+    if !newtext.contains('\t') {
+        newtext.push_str("\tz");
+    }
+    let which = rng.below(3);
+    let opname = ["set_message", "set_prefix", "finish_with_message"][which as usize];
+    let spy = SpyTerm::new(200, 50, false);
+    spy.enable_log();
+    let pb = ProgressBar::with_draw_target(Some(10), ProgressDrawTarget::term_like(spy.boxed()));
+    let mut co = CaseOut::held(fnv1a(format!("{tmpl}:{w1}:{w2}:{msg0}:{pre0}:{newtext}:{which}").as_bytes()), true);
+    let witness = J::obj()
+        .with("template", TEMPLATES[tmpl])
+        .with("tab_width_before", w1)
+        .with("tab_width_set_concurrently", w2)
+        .with("call", opname)
+        .with("text", newtext.clone());
+    let shared = std::sync::Arc::new(SlowShared {
+        go: std::sync::Mutex::new(None),
+        done: std::sync::atomic::AtomicBool::new(false),
+        overlapped: std::sync::atomic::AtomicBool::new(false),
+    });
+    let res = catch_unwind(AssertUnwindSafe(|| -> Verdict {
+        pb.set_style(style_for(tmpl));
+        pb.set_tab_width(w1);
+        pb.set_message(msg0.clone());
+        pb.set_prefix(pre0.clone());
+        let (tx, rx) = std::sync::mpsc::channel::<()>();
+        *shared.go.lock().unwrap() = Some(tx);
+        let hb = pb.clone();
+        let hs = shared.clone();
+        let helper = std::thread::spawn(move || {
+            if rx.recv().is_ok() {
+                hb.set_tab_width(w2);
+                hs.done.store(true, SeqCst);
+            }
+        });
+        let slow = SlowText(newtext.clone(), shared.clone());
+        match which {
+            0 => pb.set_message(slow),
+            1 => pb.set_prefix(slow),
+            _ => pb.finish_with_message(slow),
+        }
+        shared.go.lock().unwrap().take();
+        let _ = helper.join();
+        if !shared.done.load(SeqCst) {
+            return Verdict::Inconclusive("the text was never converted: set_tab_width did not run".into());
+        }
+        let (msg, pre) = if which == 1 { (msg0.clone(), newtext.clone()) } else { (newtext.clone(), pre0.clone()) };
+        let (want_m, want_p) = (expand(&msg, w2), expand(&pre, w2));
+        let (got_m, got_p) = (pb.message(), pb.prefix());
+        if got_m != want_m || got_p != want_p {
+            return viol(
+                "texts-not-reexpanded-consistently",
+                vec!["concurrent-set_tab_width".into(), opname.into()],
+                format!(
+                    "{opname}({newtext:?}) ran while another thread called set_tab_width({w2}) (before: {w1}); afterwards message() = {got_m:?} (expected {want_m:?}), prefix() = {got_p:?} (expected {want_p:?})"
+                ),
+                witness.clone(),
+                replay.clone(),
+            );
+        }
+        pb.force_draw();
+        if let Some(t) = tab_in_calls(&spy) {
+            return viol("tab-reached-terminal", vec!["concurrent-set_tab_width".into(), opname.into()], format!("a TAB reached the terminal in {t:?}"), witness.clone(), replay.clone());
+        }
+        let frame = last_frame_lines(&spy);
+        let want = model_lines(tmpl, &msg, &pre, w2);
+        let norm = |v: &[String]| v.iter().map(|l| l.trim_end().to_string()).collect::<Vec<_>>();
+        if norm(&frame) != norm(&want) {
+            return viol(
+                "frame-not-reexpanded-consistently",
+                vec!["concurrent-set_tab_width".into(), opname.into()],
+                format!("after {opname} raced with set_tab_width({w2}) the frame reads {frame:?}, expected {want:?}"),
+                witness.clone(),
+                replay.clone(),
+            );
+        }
+        Verdict::Held
+    }));
+    match res {
+        Ok(v) => co.verdict = v,
+        Err(p) => {
+            std::mem::forget(pb);
+            co.verdict = viol("panic", vec!["concurrent-set_tab_width".into()], format!("panicked: {}", crate::world::panic_message(&p)), witness, replay);
+        }
+    }
+    co.count("concurrent_width_changes", 1);
+    if shared.overlapped.load(SeqCst) {
+        co.count("width_changes_completed_inside_the_other_call", 1);
+    }
+    co
+}
+
 pub fn run(cfg: &RunCfg) -> PropResult {
     console::set_colors_enabled(false);
     let report = if let Some(case) = &cfg.case {
-        let mut it = case.split(':');
+        let conc = case.starts_with('t');
+        let mut it = case.trim_start_matches('t').split(':');
         let seed: u64 = it.next().and_then(|s| s.parse().ok()).unwrap_or(cfg.seed);
         let idx: u64 = it.next().and_then(|s| s.parse().ok()).unwrap_or(0);
         let mut r = crate::report::Report::default();
-        r.add(idx, run_case(seed, idx));
+        r.add(idx, if conc { concurrent_case(seed, idx) } else { run_case(seed, idx) });
         r
     } else {
         let n = if cfg.thorough { 6_000_000 } else { 600_000 };
-        run_parallel(n, workers(), |i| run_case(cfg.seed, i))
+        let mut r = run_parallel(n, workers(), |i| run_case(cfg.seed, i));
+        let nt = if cfg.thorough { 100_000 } else { 3_000 };
+        r.merge(crate::report::run_parallel_tagged('t', nt, workers(), |i| concurrent_case(cfg.seed, i)));
+        r
     };
     PropResult {
         report,
-        rule: "each evaluation: with_tab_width / with_style / with_message / with_prefix applied in a random order at construction, then 1-6 of set_tab_width / set_style / set_message / set_prefix and a finish_with_message or a drop-style finish with WithMessage; tab widths {0,1,2,8,13}; texts with 0-10 tabs (leading, trailing, consecutive); tabs in template literals and in custom-key output; standalone and inside a MultiProgress; after every operation every write_str/write_line argument is scanned for TAB, the forced frame is compared with the model expansion and message()/prefix() with the expanded text; non-trivial = at least one text of the history contains a tab".into(),
+        rule: "each evaluation: with_tab_width / with_style / with_message / with_prefix applied in a random order at construction, then 1-6 of set_tab_width / set_style / set_message / set_prefix and a finish_with_message or a drop-style finish with WithMessage; tab widths {0,1,2,8,13}; texts with 0-10 tabs (leading, trailing, consecutive); tabs in template literals and in custom-key output; standalone and inside a MultiProgress; after every operation every write_str/write_line argument is scanned for TAB, the forced frame is compared with the model expansion and message()/prefix() with the expanded text; non-trivial = at least one text of the history contains a tab; concurrent lane: set_message/set_prefix/finish_with_message with a text whose Into<Cow<str>> conversion lets a second thread run set_tab_width inside the call, final texts and frame compared with the expansion at the new width".into(),
         exhaustive: false,
     }
 }
